@@ -1,3 +1,4 @@
+import Carquet.Impl.SchemaApi
 import Carquet.Proofs.RoundtripFile
 import Carquet.Proofs.RoundtripCursor
 import Carquet.Proofs.SpecWriterSizes
@@ -404,18 +405,22 @@ theorem C01_roundtrip_any_consumption (L : Reader.Libs) (verify : Bool) (mode : 
 
 /-- **The schema reads back.**  The opened reader's schema is the written one: for column `j`, leaf `j`
 points at a schema element that carries the column's name (UTF-8 bytes), physical type, repetition
-and type length, and the leaf's maximum definition / repetition levels are those of the column. -/
+and type length, the leaf's maximum definition / repetition levels are those of the column, and
+`carquet_schema_node_logical_type` of that element returns the logical type the column was created
+with — id and parameters — or NULL when the column was created with a NULL pointer or id UNKNOWN
+(`FileReal.colLogical`); no converted type is stated. -/
 theorem C01_schema_read_back (mode : Reader.Mode) (j : Nat) (c : Col) (hc : cols[j]? = some c) :
     ∃ o lf el, Reader.openFile mode (fileOf (deps []) cols codec pageSize "Carquet" ops).1 = .ok o ∧
       o.numColumns = cols.length ∧ o.leaves[j]? = some lf ∧ o.md.schema[lf.elemIdx]? = some el ∧
       el.name = some (FileReal.strBytes c.name) ∧ el.type = some (c.ptype.code : Int) ∧
       el.repetition = some (c.rep.code : Int) ∧ el.typeLength = (c.typeLen : Int) ∧ el.numChildren = 0 ∧
-      lf.maxDef = c.maxDef ∧ lf.maxRep = c.maxRep := by
+      lf.maxDef = c.maxDef ∧ lf.maxRep = c.maxRep ∧
+      SchemaApi.nodeLogicalType el = FileReal.colLogical c ∧ el.convertedType = none := by
   obtain ⟨hf, _, _⟩ := run_all cols codec pageSize ops hcodec hschema hhist hsize hok
   have hopen := C01_open_written cols codec pageSize ops hcodec hschema hhist hsize hok mode
   obtain ⟨hd, hr⟩ := colInfo_levels c
   refine ⟨_, _, colElement c, hopen, by simp [Reader.Opened.numColumns, leavesOfCols], leavesOfCols_get cols j c hc, ?_,
-    rfl, rfl, rfl, rfl, rfl, hd, hr⟩
+    rfl, rfl, rfl, rfl, rfl, hd, hr, rfl, rfl⟩
   show (FileReal.fileMetaData (mdOfRun (deps []) cols codec pageSize "Carquet" ops)).schema[1 + j]? = _
   rw [Carquet.Proofs.Roundtrip.schema_written, Nat.add_comm, List.getElem?_cons_succ, List.getElem?_map, hf.cols_eq, hc]
   rfl
@@ -432,7 +437,7 @@ theorem C01_null_def_levels_all_present (c : Col) (b : Batch) (hc : c.rep = .opt
 /-! ### non-vacuity: the two-column, two-row-group, Snappy-compressed history of Properties/C05/SpecWriter.lean
 (OPTIONAL INT32 with a null and page statistics, REQUIRED BOOLEAN) satisfies every hypothesis -/
 
-private def exCols : List Col := [⟨"a", .int32, .optional, 0⟩, ⟨"b", .boolean, .required, 0⟩]
+private def exCols : List Col := [⟨"a", .int32, .optional, 0, none⟩, ⟨"b", .boolean, .required, 0, none⟩]
 private def exOps : List Op :=
   [.batch ⟨0, 3, some [1, 0, 1], [[1, 0, 0, 0], [2, 0, 0, 0]], none⟩, .batch ⟨1, 3, none, [[1], [0], [1]], none⟩, .newRowGroup,
    .batch ⟨0, 1, none, [[7, 0, 0, 0]], none⟩, .batch ⟨1, 1, none, [[0]], none⟩]
@@ -441,7 +446,7 @@ private theorem exSchemaOk : SchemaOk exCols :=
   ⟨by decide, fun c hc => by
     simp only [exCols, List.mem_cons, List.mem_nil_iff, or_false] at hc
     rcases hc with rfl | rfl <;> exact ⟨by decide⟩,
-   ⟨by decide, by decide +kernel, by decide⟩⟩
+   ⟨by decide, by decide +kernel, by decide, by decide⟩⟩
 
 private theorem exHistOk : HistOk exCols exOps := by
   refine ⟨?_, ?_, by decide +kernel, by decide +kernel⟩
@@ -473,7 +478,7 @@ example : readerTableOf exCols exOps =
          [⟨[1], [[7, 0, 0, 0]]⟩, ⟨[0], [[0]]⟩]]⟩ := by decide +kernel
 
 /-- … and its rows for the batch-at-a-time API -/
-example : tableRows ⟨"a", .int32, .optional, 0⟩ ⟨3, [1, 0, 1], [], [[1, 0, 0, 0], [2, 0, 0, 0]]⟩ =
+example : tableRows ⟨"a", .int32, .optional, 0, none⟩ ⟨3, [1, 0, 1], [], [[1, 0, 0, 0], [2, 0, 0, 0]]⟩ =
     [⟨1, 0, some [1, 0, 0, 0]⟩, ⟨0, 0, none⟩, ⟨1, 0, some [2, 0, 0, 0]⟩] := by decide
 
 /-! ### non-vacuity for REPEATED columns: a REPEATED INT32 column first (rows [1,2], [], [3,4]; the second
@@ -499,7 +504,7 @@ example : readerTableOf rpCols rpOps =
 open Carquet.Properties.C05 (rpCols rpOps) in
 /-- … and the entries of column `l` of the first row group for the batch-at-a-time API
 (C01_roundtrip_any_consumption), with their repetition levels: [1,2], [], [3,4] -/
-example : ((tableOf rpCols rpOps)[0]?.bind (·[0]?)).map (tableRows ⟨"l", .int32, .repeated, 0⟩) =
+example : ((tableOf rpCols rpOps)[0]?.bind (·[0]?)).map (tableRows ⟨"l", .int32, .repeated, 0, none⟩) =
     some [⟨1, 0, some [1, 0, 0, 0]⟩, ⟨1, 1, some [2, 0, 0, 0]⟩, ⟨0, 0, none⟩, ⟨1, 0, some [3, 0, 0, 0]⟩,
           ⟨1, 1, some [4, 0, 0, 0]⟩] := by decide +kernel
 
